@@ -349,6 +349,7 @@ def run(ctx):
     shared.reconsume_rule(ctx, 'C05.j', ['cirq-core/cirq/circuits/', 'cirq-core/cirq/ops/'], floor=2)
     shared.control_keys_cover_rule(ctx, 'C05.k', floor=4)
     shared.control_index_monotone_rule(ctx, 'C05.l', ['cirq-core/cirq/circuits/'], floor=1)
+    _batch_insert_shift(ctx, repo)
     ctx.decided.append('C05.l placement bookkeeping keeps, per control key, the latest moment that reads it (running maximum)')
     ctx.decided.append('C05.k the control keys the placement logic orders operations by cover every child of a wrapping operation')
     ctx.decided.append('C05.j a one-shot OP_TREE / Iterable argument is walked once: after it has been flattened into a local, the raw argument is not consumed again')
@@ -839,3 +840,45 @@ def _cache_inheritance(ctx, repo):
                        '' if not stale else f'{mn} builds a circuit whose {sorted(changed)} differ from self but hands it the memoised {stale} of self, which '
                        f'{"are" if len(stale) > 1 else "is"} computed from {sorted(set().union(*[slots[s] & changed for s in stale]))}: the new circuit answers (is_parameterized, '
                        'parameter_names, hash ...) with the values of the old one', ci.mod.rel, fn.lineno)
+
+
+def _batch_insert_shift(ctx, repo):
+    """C05.m - batch_insert: later insertion points move by the number of moments created, not by what insert() returns."""
+    ctx.decided.append('C05.m Circuit.batch_insert accounts for earlier insertions by the growth of the circuit (len after - len before), not by the index insert() returns (which is one '
+                       'past the insertion point even when the operation joined an existing moment)')
+    ctx.rule('C05.m', 'shift == moments created: in Circuit.batch_insert the running shift is increased by an expression built from len(<circuit>) taken before and after the insertion; it '
+             'never depends on the value returned by insert()', floor=1, style='TNT')
+    from ..flow import name_deps
+    ci = repo.cls('cirq.circuits.circuit.Circuit')
+    fn = ci.methods.get('batch_insert')
+    if fn is None:
+        raise AnalysisError('Circuit.batch_insert vanished')
+
+    def src(x):
+        if isinstance(x, ast.Call) and isinstance(x.func, ast.Attribute) and x.func.attr == 'insert':
+            return {'INSERT_RESULT'}
+        if isinstance(x, ast.Call) and call_name(x) == 'len':
+            return {'LEN'}
+        return None
+    dep = name_deps(fn, {}, source_of=src)
+    upd = [a for a in ast.walk(fn) if isinstance(a, ast.AugAssign) and isinstance(a.target, ast.Name)] + \
+          [a for a in ast.walk(fn) if isinstance(a, ast.Assign) and len(a.targets) == 1 and isinstance(a.targets[0], ast.Name)
+           and any(isinstance(x, ast.Name) and x.id == a.targets[0].id for x in ast.walk(a.value))]
+    # the variable added to the caller's index
+    shift_names = set()
+    for a in ast.walk(fn):
+        if isinstance(a, ast.Assign) and isinstance(a.value, ast.BinOp) and isinstance(a.value.op, ast.Add):
+            shift_names |= {x.id for x in ast.walk(a.value) if isinstance(x, ast.Name)}
+    upd = [a for a in upd if (a.target.id if isinstance(a, ast.AugAssign) else a.targets[0].id) in shift_names]
+    if not upd:
+        raise AnalysisError('batch_insert: the running shift is no longer updated')
+    for k, a in enumerate(upd, 1):
+        labs = set()
+        for x in ast.walk(a.value):
+            if isinstance(x, ast.Name):
+                labs |= dep.get(x.id, set())
+            labs |= src(x) or set()
+        ok = 'LEN' in labs and 'INSERT_RESULT' not in labs
+        ctx.ob('C05.m', f'{ci.qual}.batch_insert:shift#{k}', ok, '' if ok else
+               f'`{ast.unparse(a)}` derives the shift from {sorted(labs) or "nothing"}: insert() returns max(k, p+1) - one past the insertion index even when no moment was created - so later '
+               'insertions land one moment too late and can jump over an operation they were to precede', ci.mod.rel, a.lineno)
